@@ -711,6 +711,10 @@ class MinMaxAggregator:
             log.info(f"Cannot optimize {loc2str(term_tuple[0].location)} as the weight is not simple enough.")
             return [elem]
 
+        # the result may only be the weight: a condition on it is a condition on the maximum, not on chain links
+        if any(var.name == varname for cond in rest_cond for var in collect_ast(cond, "Variable")):
+            return [elem]
+
         # check if all Variables from old predicate are used in the tuple identifier
         # to make a unique semantics
         # NOTE: is this check really useful ? Why
